@@ -381,7 +381,7 @@ func (w *World) oracleC17Liveness() {
 				}
 			}
 		}
-		if c := w.byID[id]; c != nil && (c.Abandoned || c.Phase == "up" || c.Phase == "delfailed") {
+		if c := w.byID[id]; c != nil && !c.resynced && (c.Abandoned || c.Phase == "up" || c.Phase == "delfailed") {
 			for _, cm := range c.Mappings {
 				for _, m := range ins {
 					if m == cm && !w.liveUser(m, c) {
@@ -450,8 +450,8 @@ func (w *World) finalPhase() bool {
 		}
 	case "C14":
 		// tear down what is still up, one pod at a time, then compare with the table before
-		for _, p := range w.cfg.Pods {
-			if c := w.cur[p.Idx]; c != nil && c.Busy == nil && (c.Phase == "up" || c.Phase == "addfailed" || c.Phase == "delfailed") && c.DelTries < 12 {
+		for _, c := range w.conts {
+			if c.Busy == nil && (c.Phase == "up" || c.Phase == "addfailed" || c.Phase == "delfailed") && c.DelTries < 12 {
 				w.spawnRequest(c, "DEL")
 				return true
 			}
